@@ -160,6 +160,12 @@ func buildPipeline(rng *mon.RNG, rp roundPlan, g, k int) pipeline {
 	if k == 0 && g < 6 {
 		return newFaultSpec(rng, "abandon")
 	}
+	// ... and of the next eight a first-use pipeline (fresh time zone names, parser
+	// option sets and specs, met by several goroutines at once right after the
+	// start barrier)
+	if k == 0 && g < 14 {
+		return newTZSpec(rng, rp)
+	}
 	w := rng.Intn(100)
 	switch {
 	case w < 28:
@@ -172,6 +178,8 @@ func buildPipeline(rng *mon.RNG, rp roundPlan, g, k int) pipeline {
 		return newAsymSpec(rng, g)
 	case w < 67:
 		return newKeysSpec(rng, g)
+	case w < 71:
+		return newTZSpec(rng, rp)
 	case w < 75:
 		return newCronSpec(rng)
 	case w < 83:
@@ -197,7 +205,7 @@ func runRound(rp roundPlan) {
 	rec.Count(fmt.Sprintf("gomaxprocs.%d.rounds", rp.procs), 1)
 	rec.Count(build+".rounds", 1)
 
-	pools := newRoundPools()
+	pools := newRoundPools(rp.idx)
 	ctxs := make([]*gctx, rp.G)
 	pipes := make([][]pipeline, rp.G)
 	for g := 0; g < rp.G; g++ {
@@ -211,11 +219,24 @@ func runRound(rp roundPlan) {
 	// ---- byteslicepool recycling, one goroutine, nothing else running
 	sequentialPoolLoop(rp)
 
-	// ---- reference phase: every pipeline alone
+	// ---- reference phase: every pipeline alone. Pipelines whose reference does not
+	// have to exist beforehand get it AFTER the concurrent phase instead (always for
+	// the first-use pipelines, by a seeded coin for the other stateless ones): their
+	// inputs - key bytes, specs, zone names, sizes - are then new to every
+	// package-level table or cache when the concurrent phase meets them.
+	late := make([][]int, rp.G) // 0: reference beforehand, 1: afterwards, 2: afterwards, one per loop
 	refs := make([][]outcome, rp.G)
 	for g := 0; g < rp.G; g++ {
 		refs[g] = make([]outcome, rp.K)
+		late[g] = make([]int, rp.K)
 		for k, p := range pipes[g] {
+			if lr, ok := p.(interface{ lateRefMode() int }); ok {
+				switch m := lr.lateRefMode(); {
+				case m == 2, m == 1 && ctxs[g].rng.Bool():
+					late[g][k] = m
+					continue
+				}
+			}
 			rec.Progress()
 			refs[g][k] = safeRun(p, ctxs[g])
 		}
@@ -259,6 +280,38 @@ func runRound(rp roundPlan) {
 	}
 	close(start)
 	wg.Wait()
+
+	// ---- late reference runs: alone again, nothing else running
+	for g := 0; g < rp.G; g++ {
+		c := ctxs[g]
+		c.conc = false
+		lateRefs := map[[2]int]outcome{}
+		for k, p := range pipes[g] {
+			switch late[g][k] {
+			case 1:
+				c.loop = 0
+				rec.Progress()
+				refs[g][k] = safeRun(p, c)
+				rec.Count("pipelines.reference_run_after_the_concurrent_phase", 1)
+			case 2:
+				for loop := 0; loop < rp.loops; loop++ {
+					c.loop = loop
+					rec.Progress()
+					lateRefs[[2]int{k, loop}] = safeRun(p, c)
+				}
+				rec.Count("pipelines.reference_run_after_the_concurrent_phase", 1)
+			}
+		}
+		for i := range results[g] {
+			e := &results[g][i]
+			switch late[g][e.k] {
+			case 1:
+				e.ref = refs[g][e.k]
+			case 2:
+				e.ref = lateRefs[[2]int{e.k, e.loop}]
+			}
+		}
+	}
 
 	// ---- judge
 	for _, c := range ctxs {
@@ -333,7 +386,8 @@ func TestCheck(t *testing.T) {
 	rec = mon.Open("C08")
 	defer rec.Close()
 	nRounds := mon.Pick(12, 624)
-	rec.Note("rule", "A case is a round (GOMAXPROCS from {2,4,16} by round index, 16-64 goroutines, 3 pipelines per goroutine, 2 loops); an evaluation is one concurrent run of one pipeline whose result was compared with the result of the same pipeline run alone beforehand. "+
+	rec.Note("rule", "A case is a round (GOMAXPROCS from {2,4,16} by round index, 16-64 goroutines, 3 pipelines per goroutine, 2 loops); an evaluation is one concurrent run of one pipeline whose result was compared with the result of the same pipeline run alone - before the concurrent phase, or (first-use pipelines always, the other stateless kinds by a seeded coin) after it, so that their inputs are new to every package-level table when the concurrent phase meets them. "+
+		"tz = first-use pipelines of the cron clause: every (round, loop) has a window of 10 specs with a TZ=/CRON_TZ= prefix whose zone name no goroutine of the process has used before (fixed list of 155 IANA names incl. Etc/GMT+-N walked with a stride, then the same files as posix/<name>, posix//<name> ...; every sixth a non-existent name), parsed by ParseStandard, a Parser with a seeded option set, cron.New().AddFunc or cron.New(WithSeconds()).AddFunc; the first pipeline of goroutines 6-13 parses 6 entries of the window right after the start barrier, so each entry meets several goroutines at once; compared: error text, or the schedule incl. the resolved Location name and the first 3 Next answers. "+
 		"Pipelines (seeded): enc = fresh enc/v1 Encrypt->Decrypt per run with own message (lengths 0-1200 around the 512-byte header read step, k*64KiB-17..+17 for k=1..3, random <= 200 KiB), own key-encryption key, the 7 key-wrap algorithm names, 3 cipher options, key names of 1-300 bytes, chunked/whole/streamed readers, slow consumers, wrap/unwrap callbacks that Gosched or sleep, and 14 deliberately invalid document shapes (wrong key, failing unwrap, replaced MAC/manifest/scheme line, cuts inside the header, flipped/truncated segments) compared by decrypt error text, stream error text and the plaintext delivered; "+
 		"srcerr = Encrypt or Decrypt (over the reference run's document) whose SOURCE reader returns a non-EOF error before any data / in the middle of a segment / exactly at a segment boundary / together with the last data / inside the header, compared by error text and by what was delivered before it; abandon = the consumer reads a prefix of the Encrypt or Decrypt output and closes the reader; the first pipeline of goroutines 0-3 of every round is a srcerr, of goroutines 4-5 an abandon, so they run alone beforehand, at the start of the concurrent phase and again at the start of the second loop; "+
 		"dec = the document produced by the reference run decrypted again concurrently (bit-identical input); sym = EncryptSymmetric/DecryptSymmetric or crypto.Encrypt/Decrypt over all 19 symmetric names with own key/nonce/AAD, with tampered tags; asym = the 5 RSA encryption names and 10 signature names with per-goroutine jwk keys; keys = SerializeKey/ParseKey/pem round trips; cron = ParseStandard and 6 custom parsers over valid and invalid specs, descriptors and TZ prefixes; log = logger.NewLogger under fresh distinct names (JSON and text output into an own buffer, lines compared without time) and under names shared by several goroutines (same instance), cron.PrintfLogger/VerbosePrintfLogger; pool = byteslicepool Get/Resize/Put cycles on 3 shared and per-goroutine pools under the ownership monitor; every slice is Put filled with its owner's non-zero stamp, and a Get that returns a backing array the monitor saw Put before (same element-0 address; the monitor pins every array it tracks) must show zeros in the first L bytes (L = length at the last Put) both through b[:cap(b)] and through Resize(b, L) - also run as a 48-step one-goroutine Get/fill/Put loop at the start of every round. "+
@@ -345,7 +399,8 @@ func TestCheck(t *testing.T) {
 		"enc.source_error_pipelines", "enc.abandoned_stream_pipelines", "enc.source_error.encrypt.mid-segment", "enc.source_error.decrypt.mid-segment", "enc.source_error.encrypt.segment-boundary", "enc.source_error.decrypt.segment-boundary",
 		"enc.source_error.encrypt.before-any-data", "enc.source_error.encrypt.with-last-data", "enc.source_error.decrypt.with-last-data", "enc.slow_consumer_streams",
 		"log.registry.applies", "log.registry.lookups_fresh_names", "log.registry.lookups_existing_names", "main.log.registry.fresh_inserts_during_apply", "plain.log.registry.fresh_inserts_during_apply",
-		"log.registry.loggers_level_checked", "log.registry.own_logger_lines_checked", "cron.new_addfunc_calls",
+		"log.registry.loggers_level_checked", "log.registry.own_logger_lines_checked", "cron.new_addfunc_calls", "tz.same_as_alone.real_work", "tz.specs_with_fresh_zone_names_parsed", "tz.invalid_zone_names", "tz.via.0", "tz.via.1", "tz.via.2", "tz.via.3",
+		"pipelines.reference_run_after_the_concurrent_phase", "pool.fresh_size_cycles",
 		"enc.invalid_documents_same_error", "enc.unwrap_callback_pauses", "enc.streamed_decrypts", "enc.len.around_512_header_step", "enc.len.around_64KiB_boundary",
 		"pool.gets", "pool.gets_recycled", "pool.stamp_checks", "pool.recycled_gets_checked_for_previous_owner_bytes", "pool.recycled_gets_checked.concurrent_phase",
 		"pool.sequential.recycled_gets_checked_for_previous_owner_bytes", "log.shared_name_lookups", "log.shared_names_with_several_goroutines",
